@@ -6,8 +6,10 @@ definitely-unbound reads) and - as the ablation that classifies discrepancies - 
 function is called with every bit vector; outcome class, exception class and the ordered log are compared with
 CPython executing the same source.
 """
+import ast
 import os
 import re
+import sys
 import types
 
 from vlib import cy, diff
@@ -93,6 +95,273 @@ def reference_stats(src, funcs):
                     unbound += 1
                 reads += 1
     return {'calls': calls, 'calls_raising_nameerror': raised, 'reads': reads, 'unbound_reads': unbound}
+
+
+def nested_finally_jump_sites(src):
+    """jump statements whose way through nested try/finally statements the flow graph may misrepresent ->
+    {line: (kind, nesting, rebinds)}
+    * break / continue leaving >= 2 nested try/finally statements of their loop; rebinds: one of the *outer* (not the
+      innermost) `finally` clauses binds or unbinds a tracked variable (assignment, del, loop target, except-as, match capture);
+    * return inside >= 3 nested try/finally statements; rebinds: code that the return skips between the second
+      innermost `finally` and an outer one (statements following the nested statement inside the outer try bodies) binds
+      or unbinds a name."""
+    sites = {}
+
+    def rebinds(stmts):
+        for st in stmts:
+            for nd in ast.walk(st):
+                if isinstance(nd, ast.Name) and isinstance(nd.ctx, (ast.Store, ast.Del)) and nd.id in flowgen.VARS:
+                    return True
+                if isinstance(nd, ast.ExceptHandler) and nd.name in flowgen.VARS:
+                    return True
+                if isinstance(nd, (ast.MatchAs, ast.MatchStar)) and nd.name in flowgen.VARS:
+                    return True
+        return False
+
+    def walk(stmts, fins, allfins, rests):
+        # fins: finally clauses between the enclosing loop and here, outermost first; allfins: same, whole function;
+        # rests: (number of enclosing try/finally, statements following the statement we are in) per statement list
+        for i, st in enumerate(stmts):
+            r2 = rests + [(len(allfins), stmts[i + 1:])]
+            if isinstance(st, (ast.Break, ast.Continue)):
+                if len(fins) >= 2:
+                    sites[st.lineno] = ('break' if isinstance(st, ast.Break) else 'continue', len(fins),
+                                        any(rebinds(f) for f in fins[:-1]))
+            elif isinstance(st, ast.Return):
+                k = len(allfins)
+                if k >= 3:
+                    sites[st.lineno] = ('return', k, any(rebinds(rs) for d, rs in rests if 1 <= d <= k - 2))
+            elif isinstance(st, (ast.For, ast.While)):
+                walk(st.body, [], allfins, r2)
+                walk(st.orelse, fins, allfins, r2)
+            elif isinstance(st, ast.Try):
+                inner = fins + [st.finalbody] if st.finalbody else fins
+                ainner = allfins + [st.finalbody] if st.finalbody else allfins
+                walk(st.body, inner, ainner, r2)
+                for h in st.handlers:
+                    walk(h.body, inner, ainner, r2)
+                walk(st.orelse, inner, ainner, r2)
+                walk(st.finalbody, fins, allfins, r2)
+            elif isinstance(st, (ast.FunctionDef, ast.ClassDef)):
+                continue
+            elif isinstance(st, ast.Match):
+                for c in st.cases:
+                    walk(c.body, fins, allfins, r2)
+            else:
+                for fld in ('body', 'orelse'):
+                    sub = getattr(st, fld, None)
+                    if isinstance(sub, list):
+                        walk(sub, fins, allfins, r2)
+
+    for nd in ast.parse(src).body:
+        if isinstance(nd, ast.FunctionDef):
+            walk(nd.body, [], [], [])
+    return sites
+
+
+def binding_lines(fnode):
+    """line -> [(var, 'bind'|'del')] for the statements of one function (nested functions excluded)"""
+    out = {}
+
+    def visit(nd):
+        for ch in ast.iter_child_nodes(nd):
+            if isinstance(ch, (ast.FunctionDef, ast.Lambda, ast.ClassDef)):
+                continue
+            if isinstance(ch, ast.Name) and isinstance(ch.ctx, (ast.Store, ast.Del)):
+                out.setdefault(ch.lineno, []).append((ch.id, 'del' if isinstance(ch.ctx, ast.Del) else 'bind'))
+            elif isinstance(ch, ast.ExceptHandler) and ch.name:
+                out.setdefault(ch.lineno, []).append((ch.name, 'bind'))
+            elif isinstance(ch, (ast.MatchAs, ast.MatchStar)) and ch.name:
+                out.setdefault(ch.lineno, []).append((ch.name, 'bind'))
+            visit(ch)
+
+    visit(fnode)
+    return out
+
+
+def reference_events(src, fname, b):
+    """what CPython does for fname(b) (generated pure Python, run in this process): ordered events
+    ('line', n) / ('log',) / ('nameerror', line, variable)"""
+    m = types.ModuleType('c21trace')
+    exec(compile(src, 'c21trace', 'exec'), m.__dict__)
+    ev = []
+    m.log = lambda x: ev.append(('log',))
+
+    def tr(frame, event, arg):
+        if frame.f_code.co_filename != 'c21trace':
+            return None
+        if frame.f_code.co_name == fname:
+            if event == 'line':
+                ev.append(('line', frame.f_lineno))
+            elif event == 'exception' and isinstance(arg[1], NameError):
+                mm = re.search(r"'(\w+)'", str(arg[1]))     # (UnboundLocalError has no .name in 3.12)
+                e = ('nameerror', frame.f_lineno, mm.group(1) if mm else None)
+                if not (ev and ev[-1] == e):
+                    ev.append(e)
+        return tr
+
+    old = sys.gettrace()
+    sys.settrace(tr)
+    try:
+        getattr(m, fname)(b)
+    except Exception:
+        pass
+    finally:
+        sys.settrace(old)
+    return ev
+
+
+PARTIAL = """
+import os, sys
+sys.path.insert(0, sys.argv[1])
+import importlib
+M = importlib.import_module(sys.argv[2])
+assert M.__file__.endswith('.so'), M.__file__
+M.log = lambda x: os.write(2, b'@L@\\n')
+try:
+    getattr(M, sys.argv[3])(int(sys.argv[4]))
+except BaseException:
+    pass
+os.write(2, b'@END@\\n')
+"""
+
+
+def crash_site(tree, builddir, mod, f, b):
+    """where did the compiled function crash?  It is run once more in its own process with a `log` that writes a mark per
+    call; n marks -> the crash lies between CPython's n-th and (n+1)-th log call.  -> (variable CPython finds unbound in
+    that window or None, index of that event or None, events, (start, end) of the window) or None"""
+    from vlib import core
+    r = core.run([core.PY, '-c', PARTIAL, builddir, mod, f['name'], str(b)], env=tree.env(), timeout=120)
+    if '@END@' in (r.err or ''):
+        return None                      # did not crash this time
+    n = (r.err or '').count('@L@')
+    ev = reference_events(flowgen.HEADER + f['src'], f['name'], b)
+    seen = 0
+    start = end = None
+    for i, e in enumerate(ev):
+        if seen == n and start is None:
+            start = i
+        if e[0] == 'log':
+            seen += 1
+            if seen > n:
+                end = i
+                break
+    if start is None:
+        return None
+    if end is None:
+        end = len(ev)
+    ne = [i for i in range(start, end) if ev[i][0] == 'nameerror']
+    return (ev[ne[0]][2] if ne else None), (ne[0] if ne else None), ev, (start, end)
+
+
+def jump_classification(f, case, site=None):
+    """mechanism key of the known flow-graph defect (jumps through nested try/finally), else None.
+    With `site` (crash_site; the jump is a break/continue leaving >= 2 nested try/finally statements of its loop or a
+    return inside >= 3 nested ones, "outer" = the clauses the flow graph does not route that jump through): the crashing
+    unbound read/del or assignment-to-unbound lies inside an outer `finally` clause the jump is running, or the variable
+    was last unbound by a `del` in such a clause, or a return was taken that skips code rebinding a variable.
+    Without: for this input CPython takes such a break/continue (an outer `finally` binds/unbinds a name) / return."""
+    src = flowgen.HEADER + f['src']
+    tree_ = ast.parse(src)
+    fnode = [nd for nd in tree_.body if isinstance(nd, ast.FunctionDef) and nd.name == f['name']][0]
+    sites = nested_finally_jump_sites(src)
+    if not sites:
+        return None
+    b = int(re.match(r'\((\d+),\)', case['a']).group(1))
+    if site is None:
+        lines = {e[1] for e in reference_events(src, f['name'], b) if e[0] == 'line'}
+        hit = sorted({sites[ln][0] for ln in lines if ln in sites and sites[ln][2]})
+        return 'jump-through-nested-finally:%s:outer-levels-rebind' % '+'.join(hit) if hit else None
+    var, pos, ev, (wstart, wend) = site
+    bl = binding_lines(fnode)
+    jumps = {nd.lineno for nd in ast.walk(fnode) if isinstance(nd, (ast.Break, ast.Continue, ast.Return))}
+
+    def last_jump(before):
+        for i in range(before - 1, -1, -1):
+            if ev[i][0] == 'line' and ev[i][1] in jumps:
+                return ev[i][1]
+        return None
+
+    def last_binding(v, before):
+        """index of the last executed line that binds/unbinds v, and whether it is a `del`"""
+        for i in range(before - 1, -1, -1):
+            if ev[i][0] == 'line' and any(u == v for u, _ in bl.get(ev[i][1], [])):
+                return i, any(u == v and k == 'del' for u, k in bl[ev[i][1]])
+        return None, False
+
+    def key(j, what):
+        return 'jump-through-nested-finally:%s:%s' % (sites[j][0], what)
+
+    if pos is not None:
+        # the crash is the read/del at which CPython finds `var` unbound
+        j = last_jump(pos)
+        if j in sites:
+            if ev[pos][1] in outer_finally_lines(fnode, j, sites[j][0]):
+                # ... inside an outer `finally` clause that the jump is running
+                return key(j, 'outer-levels-read-unbound')
+        cause, is_del = last_binding(var, pos)
+        if is_del:
+            j = last_jump(cause)
+            if j in sites and sites[j][0] != 'return' and ev[cause][1] in outer_finally_lines(fnode, j, sites[j][0]):
+                # ... and the variable was unbound by an outer `finally` clause of a break/continue
+                return key(j, 'outer-levels-rebind')
+        j = last_jump(pos)
+        if j in sites and sites[j][0] == 'return' and sites[j][2]:
+            return key(j, 'outer-levels-rebind')
+        return None
+    # no unbound read in the window: an assignment to a variable that is unbound (CPython: fine; compiled: decref of
+    # NULL) inside an outer `finally` clause the jump is running
+    for i in range(wstart, wend):
+        if ev[i][0] != 'line':
+            continue
+        for v, k in bl.get(ev[i][1], []):
+            if k != 'bind':
+                continue
+            j = last_jump(i)
+            if j in sites and ev[i][1] in outer_finally_lines(fnode, j, sites[j][0]) and last_binding(v, i)[1]:
+                return key(j, 'outer-levels-assign-unbound')
+    return None
+
+
+def outer_finally_lines(fnode, jump_line, kind):
+    """lines of the `finally` clauses a jump at jump_line runs but the flow graph does not route it through: all but the
+    innermost one of its loop (break/continue), all but the two innermost ones of the function (return)"""
+    res = set()
+    skip = 2 if kind == 'return' else 1
+
+    def walk(stmts, fins, allfins):
+        for st in stmts:
+            if isinstance(st, (ast.Break, ast.Continue, ast.Return)) and st.lineno == jump_line:
+                use = allfins if isinstance(st, ast.Return) else fins
+                for fb in use[:max(0, len(use) - skip)]:
+                    for s2 in fb:
+                        for nd in ast.walk(s2):
+                            if hasattr(nd, 'lineno'):
+                                res.add(nd.lineno)
+            elif isinstance(st, (ast.For, ast.While)):
+                walk(st.body, [], allfins)
+                walk(st.orelse, fins, allfins)
+            elif isinstance(st, ast.Try):
+                inner = fins + [st.finalbody] if st.finalbody else fins
+                ainner = allfins + [st.finalbody] if st.finalbody else allfins
+                walk(st.body, inner, ainner)
+                for h in st.handlers:
+                    walk(h.body, inner, ainner)
+                walk(st.orelse, inner, ainner)
+                walk(st.finalbody, fins, allfins)
+            elif isinstance(st, (ast.FunctionDef, ast.ClassDef)):
+                continue
+            elif isinstance(st, ast.Match):
+                for c in st.cases:
+                    walk(c.body, fins, allfins)
+            else:
+                for fld in ('body', 'orelse'):
+                    sub = getattr(st, fld, None)
+                    if isinstance(sub, list):
+                        walk(sub, fins, allfins)
+
+    walk(fnode.body, [], [])
+    return res
 
 
 def _log_of(o):
@@ -238,6 +507,7 @@ def main(ck):
                 abl_obs[(m['case']['f'], m['case']['a'])] = m['got']
             for c in r2.crashes:
                 abl_obs[(c['case']['f'], c['case']['a'])] = ['crash']
+    site_keys = {}
     for cfg, n, res in pending:
         for m in res.mismatches:
             nmis[cfg] += 1
@@ -247,7 +517,12 @@ def main(ck):
             ablation_gone += a == 'gone'
             ablation_same += a == 'same'
             ec, gc = outcome_class(m['exp']), outcome_class(m['got'])
-            if a == 'gone' and mentions_unbound(m['exp']):
+            jk = jump_classification(f, m['case']) if a != 'gone' else None
+            if jk:
+                # the input takes a break/continue out of nested try/finally statements whose outer `finally` changes
+                # what is bound; the flow graph routes such a jump through the innermost `finally` only
+                key = jk
+            elif a == 'gone' and mentions_unbound(m['exp']):
                 # CPython found a variable unbound (raised, or logged it through a guarded read); the compiled function went
                 # on with a value; the whole discrepancy disappears without type inference
                 key = 'unbound-read-of-C-inferred-local'
@@ -272,7 +547,13 @@ def main(ck):
                 continue
             got2 = abl_obs.get((c['case']['f'], c['case']['a']), 'unknown')
             a = 'gone' if got2 == 'agrees' else 'unknown' if got2 == 'unknown' else 'same'
-            ck.discrepancy('crash:ablation-%s' % a, 'crash %s in %s%s [%s mode]' % (c['kind'], f['name'], c['case']['a'], cfg),
+            bval = int(re.match(r'\((\d+),\)', c['case']['a']).group(1))
+            if (f['name'], bval) not in site_keys:      # (same source and same flow analysis in both modes)
+                site = crash_site(tree, dd if cfg == 'default' else dl, n, f, bval)
+                site_keys[(f['name'], bval)] = jump_classification(f, c['case'], site) if site else None
+            jk = site_keys[(f['name'], bval)]
+            ck.discrepancy(jk + ':crash' if jk else 'crash:ablation-%s' % a,
+                           'crash %s in %s%s [%s mode]' % (c['kind'], f['name'], c['case']['a'], cfg),
                            {'function_source': flowgen.HEADER + f['src'], 'ext': '.py', 'case': c['case'], 'mode': cfg,
                             'global_options': {} if cfg == 'default' else {'error_on_uninitialized': False},
                             'stderr': c['stderr']})
